@@ -389,6 +389,27 @@ def readStream (c : Conn) (tag : String) (r : Req) (f : Frame.Frame) : Conn × O
     (if f.length != 0 then queueOut c (.windowUpdate f.stream f.length) else c, none)
   | _ => (c, none)
 
+/-- `skipHeaders`' loop: the block goes through the decoder, the fields are dropped; it stops at the first error -/
+def skipFields : Nat → Hpack.DecState → Nat → Bytes → Hpack.DecState
+  | 0, st, _, _ => st
+  | fuel + 1, st, nf, b =>
+    if b.isEmpty then st else
+    match nextField st nf b with
+    | .idxMiss st' => st'
+    | .err st' => st'
+    | .done st' => st'
+    | .field st' _ _ rest => skipFields fuel st' (nf + 1) rest
+
+/-- `skipHeaders`: a header block for a stream nobody waits on still counts for the compression context -/
+def skipHeaders (c : Conn) (f : Frame.Frame) : Conn :=
+  match f.body with
+  | .headers _ _ _ frag | .continuation _ frag =>
+    let blk := (if f.typ == Gen.c_FrameHeaders then [] else c.hdrBlock) ++ frag
+    if Frame.hasFlag f.flags Gen.c_FlagEndHeaders then
+      { c with dec := skipFields (blk.length + 1) c.dec 0 blk, hdrBlock := [], hdrEndStream := 0 }
+    else { c with hdrBlock := blk }
+  | _ => c
+
 /-- `dispatch`, the bookkeeping of END_STREAM on header blocks: a HEADERS frame records the stream it ends (0: none) -/
 def noteHeaders (c : Conn) (f : Frame.Frame) : Conn :=
   if f.typ == Gen.c_FrameHeaders then
@@ -429,12 +450,12 @@ def settle (c : Conn) (tag : String) (sid : Nat) (err : Option Err) (endS : Bool
 /-- `dispatch`. Returns the new state and whether the read loop stops. -/
 def dispatch (c : Conn) (f : Frame.Frame) : Conn × Bool :=
   match lookupA c.reqQueued f.stream with
-  | none => (c, false)
+  | none => (skipHeaders c f, false)
   | some tag =>
     match getReq c tag with
-    | none => (c, false)
+    | none => (skipHeaders c f, false)
     | some r =>
-      if r.done then ({ c with reqQueued := eraseA c.reqQueued f.stream }, false)
+      if r.done then ({ (skipHeaders c f) with reqQueued := eraseA c.reqQueued f.stream }, false)
       else
         let (c, endS) := prepare c f
         let (c, err) := readStream c tag r f
